@@ -227,6 +227,9 @@ func UseSites() []UseSite {
 		{Tag: "namesake e.Mock{}", Stmt: "_ = e.Mock{}", Kind: UKNone, TONL: true, OnlyImporter: true},
 		{Tag: "namesake var e.Mock2", Stmt: "var $v e.Mock2; _ = $v", Kind: UKNone, TONL: true, OnlyImporter: true},
 		{Tag: "namesake e.S{}.Reset()", Stmt: "e.S{}.Reset()", Kind: UKNone, TONL: true, OnlyImporter: true},
+		// a local variable that has the NAME of the import: d.Reset() / d.Helper() are then calls on a value of an unannotated type
+		{Tag: "shadow import name d := e.S{}", Stmt: "func() { d := e.S{}; d.Reset(); dd := &d; dd.ResetP() }()", Kind: UKNone, TONL: true, OnlyImporter: true},
+		{Tag: "shadow import name d struct{Helper}", Stmt: "func() { d := struct{ Helper func() int }{func() int { return 0 }}; _ = d.Helper() }()", Kind: UKNone, TONL: true, OnlyImporter: true},
 		{Tag: "namesake e.HelperArg(e.Mock{})", Stmt: "e.HelperArg(e.Mock{})", Kind: UKNone, TONL: true, OnlyImporter: true},
 		// generic items, explicit instantiation, parenthesised callees
 		{Tag: "call HelperG(1) inferred", Stmt: "{q}HelperG(1)", Kind: UKFunc, TONL: true, Core: true},
